@@ -25,9 +25,8 @@ from vlib import coq, coqlit as L
 
 PROPERTY_FILES_EXTRA = ["C17/PropertiesIf.v"]
 
-# Oracle (3) reports a documented-language deviation of the unchanged tree (see
-# the final report of the builder): switch off here if it is to be handled
-# otherwise.
+# Oracle (3): found F38 (pyparsing converted \\t, \\0, \\x42 ... inside single quotes; fixed in /repo by
+# QuotedString("'", convert_whitespace_escapes=False)); stays on.
 SQ_VERBATIM_ORACLE = True
 
 CMP_OPS = ["<", "<=", ">", ">=", "==", "!="]
@@ -159,9 +158,9 @@ def no_linebreaks(e):
 
 # ------------------------------------------------------------------ rendering (documented syntax)
 def sq_expressible(s):
-    """single quotes: verbatim, no way to write a single quote (documented); the
+    """single quotes: verbatim (backslashes included), no way to write a single quote (documented); the
     generator also keeps line breaks out (the implementation's QuotedString is single-line)"""
-    return not any(c in s for c in "'\n\r\\")      # backslash: see oracle (3), kept out of oracle (2)
+    return not any(c in s for c in "'\n\r")
 
 
 def render_lit(e, rng):
@@ -312,6 +311,7 @@ HAND = [
     "f()", "f ( )", "f", "f(", "f)", "f(,)", "f('a',)", "f(,'a')", "f('a' 'b')", "f('a','b')", "f( 'a' , \"b\" )",
     "f(g())", "f(g(h('x')))", "f(!'a')", "f(('a'))", "f('a' == 'b')", "9f()", "f9()", "f-()", "-f()", "f_g()", "f-g-9()",
     "é()", "f\n(\n)", "f()()", "f() g()", "F()", "if-then-else('a','b','c')", "f(\t'a'\t,\t'b'\t)",
+    "'C:\\temp'", "'\\u0041'", "'\\101'", "'\\\\n' == \"\\\\\\\\n\"", "'a\\' == 'b'", "'\\t' == '\t'",
     "'a\\tb'", "'a\\nb'", "'\\0'", "'\\03'", "'\\73'", "'\\x42'", "'\\x41'", "'\\xg2'", "'\\u04'", "'\\uF4'", "'\\''", "'\\'",
     "'\\\\t'", "'\\\\'", '"\\""', '"\\\\"', '"\\t"', '"\\n"', '"\\f"', '"\\r"', '"\\0"', '"\\03"', '"\\73"', '"\\x42"',
     '"\\xA2"', '"\\xa2"', '"\\u04"', '"\\q"', '"\\$"', '"\\\\t"', '"\\\\\\t"', '"\\', '"\\"', '"a\\\nb"', '"a\\\rb"',
@@ -360,7 +360,7 @@ EQB = "eqb_opt_if"
 
 def coq_mismatches(ctx, texts, results, tag):
     cases = [(L.s(t), coq_expected(r)) for t, r in zip(texts, results)]
-    return coq.run_cases(ctx, REQ, FN, EQB, cases, shard=250, tag=tag)
+    return coq.run_cases(ctx, REQ, FN, EQB, cases, shard=300, tag=tag)
 
 
 def minimise(ctx, text, rounds=6):
@@ -478,7 +478,7 @@ def run_ifgrammar(ctx):
         "parse actions raising ParseError (BinaryStrOperator on non-string operands) are modelled as a type check after "
         "the syntactic parse; both surface as ParseError",
     ]
-    n_total = ctx.n(1500, 15000)
+    n_total = ctx.n(900, 15000)
     texts, kinds = [], []
 
     def add(text, kind):
@@ -582,7 +582,7 @@ def run_ifgrammar(ctx):
 
     # ---- texts produced by Coq's render_if (theorem parse_if_render): the implementation must parse them to the AST
     rcases, rmeta = [], []
-    for i in range(ctx.n(150, 1500)):
+    for i in range(ctx.n(100, 1500)):
         e = doc_ast(no_linebreaks(gen_ast(rng, rng.choice([1, 2, 3, 3, 4]), True)))
         text = coq_render_at(9, e)
         try:
